@@ -19,7 +19,7 @@ def _var(b, p):
     return (n >> 1) ^ -(n & 1), p
 
 
-def walk(data):
+def walk(data, strict=True):
     """-> dict(meta={key: bytes}, sync, hend, blocks=[(off, size, count, payload)]) ; raises on malformed framing."""
     if data[:4] != b"Obj\x01":
         raise ValueError("magic")
@@ -45,19 +45,28 @@ def walk(data):
     p += 16
     hend = p
     blocks = []
+    error = None
     while p < len(data):
         off = p
-        c, p = _var(data, p)
-        l, p = _var(data, p)
+        try:
+            c, p = _var(data, p)
+            l, p = _var(data, p)
+        except IndexError:
+            error = "cut"
+            break
         payload = data[p:p + l]
         if len(payload) != l or l < 0:
-            raise ValueError("payload")
+            error = "payload"
+            break
         p += l
         if data[p:p + 16] != sync:
-            raise ValueError("block sync")
+            error = "block sync"
+            break
         p += 16
         blocks.append((off, p - off, c, payload))
-    return {"meta": meta, "sync": sync, "hend": hend, "blocks": blocks}
+    if error and strict:
+        raise ValueError(error)
+    return {"meta": meta, "sync": sync, "hend": hend, "blocks": blocks, "error": error}
 
 
 def inflate(codec, payload):
@@ -94,7 +103,7 @@ def compress(codec, data, rnd=None):
 def describe(data):
     """Everything TLC needs beside the bytes: the schema text + its json.loads tree, and the inflate table."""
     from . import proj
-    w = walk(data)
+    w = walk(data, strict=False)         # a file damaged after the header still gets its header described; TLC judges the rest
     text = w["meta"]["avro.schema"]
     codec = w["meta"].get("avro.codec", b"null").decode()
     table = []
